@@ -21,10 +21,7 @@ impl Compiler {
             let idx = if let Some(&idx) = self.global_indices.get(&qualified_name) {
                 idx
             } else {
-                let idx = self.next_global_index;
-                self.global_indices.insert(qualified_name.clone(), idx);
-                self.next_global_index += 1;
-                idx
+                self.alloc_global_index(&qualified_name)?
             };
 
             self.accessed_globals.insert(qualified_name);
@@ -36,10 +33,7 @@ impl Compiler {
             let idx = if let Some(&idx) = self.global_indices.get(member) {
                 idx
             } else {
-                let idx = self.next_global_index;
-                self.global_indices.insert(member.to_string(), idx);
-                self.next_global_index += 1;
-                idx
+                self.alloc_global_index(member)?
             };
             self.accessed_globals.insert(member.to_string());
             self.emit_b(OpCode::GetGlobalIdx, dest, idx as i16, span);
